@@ -102,7 +102,11 @@ RULE = ("tx: packets of 1..70 random / all-ones / stuffing-boundary bytes, tx_da
         "cycle (the switch is combinational in the code as it is: latency 0, measured, tag phy:nondriving-same-cycle), "
         "raw drive in op_mode 2, pull-up / pull-down equal their requests; coverage tags from the real TxPipeline's "
         "hidden o_oe / o_usbp / o_usbn / fit_oe and the bit stuffer's o_stall (op1-while-tx-drives, -during-se0, "
-        "-during-stuffed-bit, -while-draining, -before-sync-on-wire, change-to-N-while-tx-drives ...)")
+        "-during-stuffed-bit, -while-draining, -before-sync-on-wire, change-to-N-while-tx-drives ...).  phy with "
+        "desc.io = pulldown / pullup / none (appended after the other cases): the I/O record lacks the optional "
+        "`pullup` and/or `pulldown` member (GatewarePHY wires each up only if the record has it); same stimulus and "
+        "monitor, an output that does not exist is masked, one that exists is judged against its request in every "
+        "usb_io cycle (tags phy:io=<shape>, phy:pulldown-requested)")
 ASSUMPTIONS = [
     "the UTMI producer keeps tx_valid and the byte stable until tx_ready and drops tx_valid after the last tx_ready "
     "(theorems: the closed loop with `Prod`; tx_data arbitrary while tx_valid is low)",
@@ -258,11 +262,16 @@ class _Pin:
 
 
 class _IO:
-    def __init__(self):
+    """The I/O record stub.  `pullup` / `pulldown` are optional members of the record GatewarePHY is written for
+    (it asks `hasattr(io, ...)`): both are present unless switched off."""
+
+    def __init__(self, pullup=True, pulldown=True):
         self.d_p = _Pin("d_p", i=True, o=True, oe=True)
         self.d_n = _Pin("d_n", i=True, o=True, oe=True)
-        self.pullup = _Pin("pullup", o=True)
-        self.pulldown = _Pin("pulldown", o=True)
+        if pullup:
+            self.pullup = _Pin("pullup", o=True)
+        if pulldown:
+            self.pulldown = _Pin("pulldown", o=True)
         self.vbus_valid = _Pin("vbus_valid", i=True)
 
 
@@ -516,6 +525,12 @@ def gen_cases(tier, rng):
     for k in range(np_):
         out.append({"kind": "phy", "seed": rng.u64(), "k": k, "phase": k % 4, "mode": _PHY_MODES[k % len(_PHY_MODES)],
                     "cycles": 2400 if tier != "thorough" else 4000, "big": int(tier == "thorough" and k % 8 == 0)})
+    # the other shapes of the I/O record: the optional members `pullup` / `pulldown` missing (one, the other, both);
+    # appended after the older cases so that their seeds do not move
+    ns = {"quick": 6, "widen": 12}.get(tier, 36)
+    for k in range(ns):
+        out.append({"kind": "phy", "seed": rng.u64(), "k": k, "phase": k % 4, "mode": _PHY_MODES[k % len(_PHY_MODES)],
+                    "cycles": 1200, "big": 0, "io": _IO_SHAPES[k % len(_IO_SHAPES)]})
     return out
 
 
@@ -965,6 +980,8 @@ def run_txcycle(desc):
 
 # ------------------------------------------------------------------------------------------------ whole PHY, op-mode changes
 _PHY_MODES = ["directed", "directed", "chatter", "directed", "async"]
+# which optional members the I/O record has ("both" = the shape of all other cases)
+_IO_SHAPES = ["pulldown", "pullup", "none"]
 
 
 class _PhyStim:
@@ -1147,7 +1164,7 @@ class _PhyStim:
             self.nxt = None
 
 
-def build_phy():
+def build_phy(shape="both"):
     """The real GatewarePHY on the I/O stub plus handles on the TxPipeline / TxBitstuffer instances it creates inside
     `elaborate` (for coverage tags only: which phase of a transmission a mode change hit).  Classes are wrapped for
     the duration of the elaboration, as in `build_rx_pipeline`; nothing of the gateware is changed."""
@@ -1169,7 +1186,7 @@ def build_phy():
     Pm.TxPipeline = mk("TxPipeline", o_tx)
     Tm.TxBitstuffer = mk("TxBitstuffer", o_bs)
     try:
-        io = _IO()
+        io = _IO(pullup=shape in ("both", "pullup"), pulldown=shape in ("both", "pulldown"))
         dut = Pm.GatewarePHY(io=io)
         top = sim._Wrap(dut, ["usb_io", "usb"])
         s = Simulator(top)          # elaborates
@@ -1183,16 +1200,21 @@ def run_phy(desc):
     cycle of a transmission, compared usb_io cycle by usb_io cycle with the Lean model `FsPhy.step phase` (the transmit
     chain inside the op-mode switch) on tx_ready, d_p.o, d_n.o, oe, pullup.o, pulldown.o.  The monitor judges EVERY
     usb_io cycle: in a cycle whose op_mode is non-driving both output enables are low -- in that same cycle: the switch
-    is combinational in the code as it is (latency 0, measured: tag phy:nondriving-same-cycle)."""
+    is combinational in the code as it is (latency 0, measured: tag phy:nondriving-same-cycle).
+    desc["io"] = "pulldown" | "pullup" | "none": the I/O record lacks the other optional pull member(s); an output that
+    does not exist is reported as None (masked in the model comparison, not judged), one that exists is judged against
+    its request exactly as with both present."""
     rng = Rng(desc["seed"])
+    shape = desc.get("io", "both")
     phase = desc.get("phase", 0)
     mode = desc.get("mode", "directed")
     n = desc.get("cycles", 2400)
     rows = [list(r) for r in desc["stimulus"]] if desc.get("stimulus") else None
     stim = _PhyStim(rng.fork("stim"), mode, phase, desc.get("big", 0))
-    dut, io, s, txp, bs = build_phy()
+    dut, io, s, txp, bs = build_phy(shape)
     ins = [dut.op_mode, dut.tx_valid, dut.tx_data, dut.term_select, dut.dp_pulldown, dut.dm_pulldown]
-    outs = [dut.tx_ready, io.d_p.o, io.d_n.o, io.d_p.oe, io.pullup.o, io.pulldown.o]
+    outs = [dut.tx_ready, io.d_p.o, io.d_n.o, io.d_p.oe, io.pullup.o if hasattr(io, "pullup") else None,
+            io.pulldown.o if hasattr(io, "pulldown") else None]
     hidden = [txp.o_oe, txp.o_usbp, txp.o_usbn, txp.fit_oe] if txp is not None else []
     if bs is not None:
         hidden.append(bs.o_stall)
@@ -1215,7 +1237,7 @@ def run_phy(desc):
                 r = stim.row(k)
             for sig, v in zip(ins, r):
                 ctx.set(sig, v)
-            o = [ctx.get(x) for x in outs]
+            o = [ctx.get(x) if x is not None else None for x in outs]
             dnoe.append(ctx.get(io.d_n.oe))
             hid.append([ctx.get(x) for x in hidden])
             if rows is None:
@@ -1228,7 +1250,7 @@ def run_phy(desc):
     s.add_testbench(tb)
     s.run()
     fails = []
-    tags = {"phy", "phy:phase=%d" % phase, "phy:" + mode} | stim.tags
+    tags = {"phy", "phy:phase=%d" % phase, "phy:" + mode, "phy:io=" + shape} | stim.tags
 
     def fail(k, sig, what):
         if sum(1 for f in fails if f["sig"] == sig) < 2:
@@ -1248,12 +1270,14 @@ def run_phy(desc):
         if op == 2 and txv and not (dpoe and dnoe[k] and dpo == (txd & 1) and dno == 1 - (txd & 1)):
             fail(k, "raw-drive", "usb_io cycle %d: op_mode = 2 (no bit-stuffing/NRZI) with tx_valid: expected raw drive of "
                  "tx_data[0]=%d, got d_p.o=%d d_n.o=%d oe=%d" % (k, txd & 1, dpo, dno, dpoe))
-        if pu != term:
-            fail(k, "pullup", "usb_io cycle %d: pullup.o=%d but term_select=%d (op_mode=%d, dp/dm_pulldown=%d/%d)"
-                 % (k, pu, term, op, dpd, dmd))
-        if pd != (dpd | dmd):
-            fail(k, "pulldown", "usb_io cycle %d: pulldown.o=%d but dp_pulldown|dm_pulldown=%d (op_mode=%d)"
-                 % (k, pd, dpd | dmd, op))
+        if pu is not None and pu != term:
+            fail(k, "pullup", "usb_io cycle %d: pullup.o=%d but term_select=%d (op_mode=%d, dp/dm_pulldown=%d/%d; I/O "
+                 "record: %s)" % (k, pu, term, op, dpd, dmd, shape))
+        if pd is not None and pd != (dpd | dmd):
+            fail(k, "pulldown", "usb_io cycle %d: pulldown.o=%d but dp_pulldown|dm_pulldown=%d (op_mode=%d; I/O record: "
+                 "%s)" % (k, pd, dpd | dmd, op, shape))
+        if pd is not None and (dpd | dmd):
+            tags.add("phy:pulldown-requested")
         # coverage, from the real transmitter's own outputs (hidden behind the op-mode switch)
         h = hid[k]
         if h:
